@@ -5,7 +5,7 @@ from .solcommon import *
 def run(tier, seed, replay=None):
     rep = Report("C20", tier, seed)
     sun_selfcheck(rep)
-    args = ["--stride", 7] if tier == "thorough" else ["--years", 40, "--random", 3000]
+    args = ["--stride", 2] if tier == "thorough" else ["--years", 40, "--random", 3000]
     info, events = validate(rep, "C20", "c20", args, heap="10g" if tier == "thorough" else "6g")
     rep.distinct_nontrivial = len({(e["site"]["lat"], e["site"]["lon"], e["date"]["dn"], e["kind"], e["d"]) for e in events})
     rep.rule = ("one event = the same date computed at two zone settings: gmt +-0.5/1/3 h at the same site, or 15 degrees east with gmt + 1 h; "
